@@ -84,7 +84,7 @@ inline Chain BuildChain(int extra)
 {
     Chain c;
     {
-        TestChain100Setup a{ChainType::REGTEST, TestOpts{.extra_args = {"-debug=0"}}};
+        TestChain100Setup a{ChainType::REGTEST, TestOpts{.extra_args = {"-debug=0", "-checkmempool=0"}}};
         a.mineBlocks(9);
         c.snap109 = MakeSnapshot(a, "snap109.dat");
         a.mineBlocks(1);
